@@ -128,7 +128,8 @@ def akai_program_items(rng, n: int):
 
 
 def program_bytes(st, rng) -> bytes:
-    """header + keygroups placed at arbitrary (permuted, gapped) addresses, chained through next_keygroup_address"""
+    """header + keygroups placed at arbitrary (permuted, gapped) addresses, chained through next_keygroup_address; records in
+    st["blocks"] where every block (linked or stale) lives - the visiting order is the specification's business"""
     nk = len(st["keygroups"])
     slots = list(range(nk))
     random.Random(st["perm"]).shuffle(slots)
@@ -150,9 +151,18 @@ def program_bytes(st, rng) -> bytes:
               voice_output_scale_db=st["voice_output_scale_db"], stereo_output_scale_db=st["stereo_output_scale_db"],
               key_temperaments=bytes(int(x) for x in st["key_temperaments"]), number_of_keygroups=nk)
     buf[0:72] = pack("akai_program_header", hv)
-    for i, kg in enumerate(st["keygroups"]):
+    st["first_keygroup_address"], st["number_of_keygroups"], st["blocks"] = addr[0], nk, []
+    stale = []
+    if st.get("layout") == "standard" and nk >= 2:       # a stale (unlinked) copy of a keygroup in the slot behind the last one
+        stale = [(150 * (nk + 1), dict(st["keygroups"][0], ints=dict(st["keygroups"][0]["ints"], filter_cutoff="77")))]
+        buf.extend(bytes(160))
+    for i, kg in enumerate(st["keygroups"] + [k for _, k in stale]):
+        if i >= nk:
+            addr.append(stale[i - nk][0])
         kv = {k: int(v) for k, v in kg["ints"].items()}
-        head = dict(kv, next_keygroup_address=(addr[i + 1] if i + 1 < nk else rng.choice([0, 5000])), low_key=kg["low_key"], high_key=kg["high_key"],
+        nxt = (addr[i + 1] if i + 1 < nk else rng.choice([0, 5000]))
+        st["blocks"].append({"addr": addr[i], "kg": dict({k: v for k, v in kg.items() if k not in ("aux", "track", "vss")}, next=nxt)})
+        head = dict(kv, next_keygroup_address=nxt, low_key=kg["low_key"], high_key=kg["high_key"],
                     tune_cents=kg["tune_cents"], tune_semitones=int(kg["tune_semitones"]), velocity_zone_crossfade=kg["velocity_zone_crossfade"],
                     num_velocity_zones=4)
         b = pack("akai_keygroup_head", head)
@@ -269,7 +279,7 @@ def run(chk: Check):
                 if trunc:
                     over_cap += 1          # the property speaks of listings under the 300-line cap
                     continue
-                st = {k: v for k, v in it.items() if k not in ("perm", "layout")}
+                st = {k: v for k, v in it.items() if k not in ("perm", "layout", "keygroups")}
                 events.append({"kind": "akai_program", "id": f"akai program {it['file_name']} ({hdr[:40]})", "stored": st, "printed": printed_akai_program(tree)})
         for b in range(batches[2]):
             items = roland_items(rng, per)
